@@ -55,7 +55,23 @@ Example C02_named_typed_nonvacuous :
     Ok (VList [VInt 1; VList [VInt 2; VInt 3]; VDict [(VStr "r", VList [VInt 4]); (VStr "o", VInt 9)]]) /\
   pk ntE ntP (VDict [(VStr "r", VList [])]) (cp true (STyped "TD")) = Ok (VDict [(VStr "r", VList [])]) /\   (* optional key absent *)
   (exists e, pk ntE ntP (VDict [(VStr "o", VInt 1)]) (cp true (STyped "TD")) = Exn e).                         (* required key absent *)
-Proof. repeat split; try (vm_compute; reflexivity). eexists. vm_compute. reflexivity. Qed.
+Proof.
+  repeat (match goal with |- (_ = _) /\ _ => split; [vm_compute; reflexivity|] end).
+  eexists. vm_compute. reflexivity.
+Qed.
+
+(* tuples with an unpacked segment: Tuple[int, Unpack[Tuple[str, ...]], bool] and Tuple[int, Unpack[Tuple[str, int]], bool] *)
+Example C02_unpacked_tuple :
+  let tv := STupleU [SIntT] (STupleVar SStrT) [SBoolT] in
+  let tf := STupleU [SIntT] (STupleFix [SStrT; SIntT]) [SBoolT] in
+  conf [] (VTuple [VInt 1; VStr "a"; VStr "b"; VBool true]) tv = true /\
+  conf [] (VTuple [VInt 1; VBool true]) tv = true /\
+  conf [] (VTuple [VInt 1]) tv = false /\
+  conf [] (VTuple [VInt 1; VStr "a"; VInt 2; VBool true]) tf = true /\
+  conf [] (VTuple [VInt 1; VStr "a"; VBool true]) tf = false /\
+  pk [] ntP (VTuple [VInt 1; VStr "a"; VStr "b"; VBool true]) (cp true tv) = Ok (VList [VInt 1; VStr "a"; VStr "b"; VBool true]) /\
+  pk [] ntP (VTuple [VInt 1; VStr "a"; VInt 2; VBool true]) (cp true tf) = Ok (VList [VInt 1; VStr "a"; VInt 2; VBool true]).
+Proof. cbv zeta. repeat (match goal with |- _ /\ _ => split end); vm_compute; reflexivity. Qed.
 
 (* first sentence of C02: only str/int/float/bool/None/list/dict (scalar keys) come out
    whenever the schema has no Any leaf; the documented renderings being text or numbers and
